@@ -62,7 +62,7 @@ def bridge_deps(short):
         d.append('parse_tag_and_wiretype_ok')
     return d
 
-GEN_FINDINGS = {'C12': ('F17', 'F12b'), 'C15': ('F12b',)}
+GEN_FINDINGS = {'C12': ('F17',)}
 
 PROPS = {
     'C12': dict(
